@@ -157,6 +157,29 @@ func runProperty(p *Property, opts *Options, replay bool) int {
 				R.Outcomes, countAsserts(R), len(R.Violations), R.Wall.Seconds())
 		}
 	}
+	// vacuity guard: an assertion written in a harness (entry, its driver, their closures) that no harness of this
+	// property ever evaluated is a dead obligation
+	evaluated := map[string]bool{}
+	anyViol := false
+	for _, R := range results {
+		for l := range R.Asserts {
+			evaluated[l] = true
+		}
+		if len(R.Violations) > 0 || len(R.Aborts) > 0 {
+			anyViol = true
+		}
+	}
+	if !anyViol && opts.OnlyHarness == "" {
+		for _, R := range results {
+			for _, l := range R.deadAsserts(L.prog.Fset) {
+				if _, ok := R.Spec.DeadOK[l]; ok || evaluated[l] {
+					continue
+				}
+				R.DeadAsserts = append(R.DeadAsserts, l)
+				problems = append(problems, fmt.Sprintf("%s: assertion %q is written in the harness but was never evaluated on any path of any harness of this property (vacuous obligation?)", R.Spec.Name, l))
+			}
+		}
+	}
 	// deduplicate violations by harness+label (keep the first, shortest decision list)
 	sort.SliceStable(viols, func(i, j int) bool { return len(viols[i].Decisions) < len(viols[j].Decisions) })
 	seen := map[string]bool{}
